@@ -76,9 +76,54 @@ Failures(e) ==
      \cup {<<e.t, "ScaleSection", k - 1>> : k \in {j \in 1..Len(e.sranges) : ~ScaleSectionOK(e, j)}}
      \cup {<<e.t, "WeightSection", k - 1>> : k \in {j \in 1..Len(e.wranges) : ~WeightSectionOK(e, j)}}
 
+(* ---- artefact level: one stripe command of a compiled network -------------------------------
+   kind "stripe": what the output file makes the hardware read for one NPU convolution-like operation
+     n, nc, B           channels of this stripe (source channels c0 .. c0+n-1), cores, OFM block depth register
+     kh, kw, id, acc, trav, bits, dily, dilx   from the source model (kernel, IFM depth) and the registers
+                        (KERNEL_STRIDE: traversal and dilation, IFM_PRECISION: bit depth); flip is FALSE
+     wraw, zp, bias     source model: weights of these channels (flattened OHWI), zero points, 40-bit bias limbs
+     cores              for core 0 .. nc-1: [core, defined, slen, sbytes, wlen, wdec]
+                        slen / wlen = SCALE(1)_LENGTH / WEIGHT(1)_LENGTH registers; sbytes = the bytes at
+                        SCALE(1)_BASE in the programmed region (a scratch region is followed back through the
+                        DMA operations of the stream to the flash image); wdec = the bytes at WEIGHT(1)_BASE
+                        decoded by the reference decoder; defined = every byte could be traced to the flash image
+   Multiplier bytes are not decided here (float derivation of the scales, property C09): the record count,
+   the 5 bias bytes and the range of the shift byte are. *)
+StripeChans(e, core) == Channels(<<0, e.n>>, e.nc, core, 1)
+
+StripeScaleOK(e, k) ==
+    LET c == e.cores[k]
+        ch == StripeChans(e, c.core)
+        cnt == Len(ch)
+    IN /\ c.slen = Round16(10 * cnt) /\ Len(c.sbytes) = c.slen
+       /\ \A j \in 1..cnt :
+             LET rec == Record(e.bias[ch[j] + 1], <<0, 0>>, 0)
+             IN /\ \A b \in 1..5 : c.sbytes[10 * (j - 1) + b] = rec[b]
+                /\ c.sbytes[10 * j] \in 0..63
+
+StripeWeightOK(e, k) ==
+    LET c == e.cores[k]
+        ch == StripeChans(e, c.core)
+        cfg == OrderCfg(e, c.core, Len(ch))
+    IN IF Len(ch) = 0 THEN c.wlen = 0
+       ELSE /\ ValidCfg(cfg) /\ c.wlen > 0 /\ c.wlen % 16 = 0
+            /\ ExpectedThenZeros(c.wdec, Reordered(cfg, SubVolume(e, ch)))
+
+StripeWellFormed(e) ==
+    /\ e.n >= 1 /\ e.nc \in {1, 2} /\ e.B >= e.nc /\ e.acc \in Accelerators /\ ~e.flip
+    /\ Len(e.wraw) = e.n * e.kh * e.kw * e.id /\ Len(e.zp) = e.n /\ Len(e.bias) = e.n
+    /\ \A ch \in 1..e.n : WellFormedRecordInput(e.bias[ch], <<0, 0>>, 0)
+    /\ Len(e.cores) = e.nc /\ \A k \in 1..e.nc : e.cores[k].core = k - 1
+
+StripeFailures(e) ==
+    IF ~StripeWellFormed(e) THEN {<<e.t, "MalformedObservation">>}
+    ELSE {<<e.t, "SectionBytesDefined", k - 1>> : k \in {j \in 1..e.nc : ~e.cores[j].defined}}
+    \cup {<<e.t, "ScaleSection", k - 1>> : k \in {j \in 1..e.nc : e.cores[j].defined /\ ~StripeScaleOK(e, j)}}
+    \cup {<<e.t, "WeightSection", k - 1>> : k \in {j \in 1..e.nc : e.cores[j].defined /\ ~StripeWeightOK(e, j)}}
+
 Init == l = 1 /\ viol = {}
 Next == /\ l <= Len(Trace)
-        /\ viol' = viol \cup Failures(Ev)
+        /\ viol' = viol \cup (IF Ev.kind = "stripe" THEN StripeFailures(Ev) ELSE Failures(Ev))
         /\ l' = l + 1
 Spec == Init /\ [][Next]_vars
 
